@@ -225,6 +225,8 @@ func senFeature(buf []byte) string {
 var c03Templates = [...]string{
 	`{"a":"?"}`, `["?","?"]`, `[tru?,nul?]`, `[1?.?e?]`, `["?\?"]`, `{"?":?}`, `[?,?]`, `[[?],{"a":?}]`,
 	`["\u00??"]`, `-?.?`, `[1,2?3]`, `{"a":"b","?":"d"}`, `[true,null]`, `["ab","c?"]`, `[fals?]`,
+	// a free byte at a structural position (after a member, after a comma, between values)
+	`{"a":"b",?}`, `{"a":true?}`, `[{"a":[1]?}]`, `{"":{}?}`, `[[],?]`, `{"a":1 ?}`, `{"a":"b"?"c":1}`, `["a"?"b"]`, `{"a"?"b"}`,
 }
 
 // VerifC03_Templates: JSON skeletons with free symbolic bytes ('?') at the
